@@ -309,6 +309,75 @@ def _stmt_form(h) -> Optional[tuple]:
     return body, ret
 
 
+class _FoldConst(ast.NodeTransformer):
+    """after a literal argument has been substituted for a selector parameter: ``a if True else b`` is ``a``, ``if False: ...``
+    is its else branch, ``not True`` is ``False``"""
+    def visit_UnaryOp(self, node):
+        self.generic_visit(node)
+        if isinstance(node.op, ast.Not) and isinstance(node.operand, ast.Constant) and isinstance(node.operand.value, bool):
+            return ast.copy_location(ast.Constant(value=not node.operand.value), node)
+        return node
+
+    def visit_IfExp(self, node):
+        self.generic_visit(node)
+        if isinstance(node.test, ast.Constant) and isinstance(node.test.value, bool):
+            return node.body if node.test.value else node.orelse
+        return node
+
+    def visit_BoolOp(self, node):
+        self.generic_visit(node)
+        vals = []
+        for v in node.values:
+            if isinstance(v, ast.Constant) and isinstance(v.value, bool):
+                if isinstance(node.op, ast.And):
+                    if not v.value:
+                        return ast.copy_location(ast.Constant(value=False), node)
+                    continue
+                if v.value:
+                    return ast.copy_location(ast.Constant(value=True), node)
+                continue
+            vals.append(v)
+        if not vals:
+            return ast.copy_location(ast.Constant(value=isinstance(node.op, ast.And)), node)
+        if len(vals) == 1:
+            return vals[0]
+        node.values = vals
+        return node
+
+    def _block(self, stmts):
+        out = []
+        for st in stmts:
+            r = self.visit(st)
+            if r is None:
+                continue
+            out.extend(r if isinstance(r, list) else [r])
+        return out
+
+    def visit_If(self, node):
+        node.test = self.visit(node.test)
+        node.body = self._block(node.body)
+        node.orelse = self._block(node.orelse)
+        if isinstance(node.test, ast.Constant) and isinstance(node.test.value, bool):
+            return (node.body if node.test.value else node.orelse) or [ast.copy_location(ast.Pass(), node)]
+        if not node.body:
+            node.body = [ast.copy_location(ast.Pass(), node)]
+        return node
+
+    def generic_visit(self, node):
+        for fld in ("body", "orelse", "finalbody"):
+            blk = getattr(node, fld, None)
+            if isinstance(blk, list) and blk and isinstance(blk[0], ast.stmt) and not isinstance(node, ast.If):
+                setattr(node, fld, self._block(blk) or [ast.copy_location(ast.Pass(), node)])
+        for fld, val in ast.iter_fields(node):
+            if fld in ("body", "orelse", "finalbody") and isinstance(val, list) and val and isinstance(val[0], ast.stmt):
+                continue
+            if isinstance(val, ast.AST):
+                setattr(node, fld, self.visit(val))
+            elif isinstance(val, list):
+                setattr(node, fld, [self.visit(x) if isinstance(x, ast.AST) else x for x in val])
+        return node
+
+
 class Inliner:
     def __init__(self, model, reference: set):
         self.model = model
@@ -361,6 +430,8 @@ class Inliner:
             if not _is_simple(v) and (_uses(body, p) > 1 or _in_repeated_context(body, p)):
                 return None       # the argument would be evaluated a different number of times
         new = _Subst(mp, {}).visit(copy.deepcopy(e))
+        if any(isinstance(v, ast.Constant) and isinstance(v.value, bool) for v in mp.values()):
+            new = _FoldConst().visit(new)
         self.inlined_sites[h.where] = self.inlined_sites.get(h.where, 0) + 1
         return ast.copy_location(new, call)
 
@@ -441,6 +512,8 @@ class Inliner:
             st = ast.Expr(value=ast.Constant(value=None))
         sub = _Subst(mapping, rename)
         new_body = [sub.visit(copy.deepcopy(s)) for s in body]
+        if any(isinstance(v, ast.Constant) and isinstance(v.value, bool) for v in mapping.values()):
+            new_body = _FoldConst()._block(new_body)
         out = pre + new_body
         if ret is not None:
             r = sub.visit(copy.deepcopy(ret))
@@ -530,6 +603,12 @@ def inline_new_helpers(model, reference: set) -> dict:
                 any_change = True
         if not any_change:
             break
+    # inlined bodies bring their own temporaries: look through the ones that only carry a value to the next statement
+    for f in model.all_functions(include_inlined=True):
+        if not inl.is_new(f) and any(isinstance(n, ast.Name) and "__h" in n.id for n in ast.walk(f.node)):
+            for _ in range(4):
+                if not inline_adjacent_single_use(f.node):
+                    break
     model._callgraph = None
     # a new helper that is no longer called from anywhere has been absorbed by its callers
     still_called = set()
@@ -548,3 +627,78 @@ def inline_new_helpers(model, reference: set) -> dict:
             h.absorbed = True
             absorbed.append(h.where)
     return {"new_helpers": sorted(h.where for h in new_helpers), "inlined": dict(inl.inlined_sites), "absorbed": absorbed}
+
+
+def inline_adjacent_single_use(fn: ast.FunctionDef) -> bool:
+    """``v = <expr>`` directly followed by the only statement that reads ``v`` (in its header: the iterable of a ``for``, the
+    test of an ``if`` / ``while`` / ``assert``, the value of an assignment / return / expression statement), ``v`` being stored
+    once in the whole function and read once: the expression is put in place of ``v``.  The syntax-tree level counterpart
+    of looking through single-definition locals, for the rules that walk statements"""
+    stores: dict = {}
+    loads: dict = {}
+    for n in ast.walk(fn):
+        if isinstance(n, ast.Name):
+            (stores if isinstance(n.ctx, (ast.Store, ast.Del)) else loads).setdefault(n.id, []).append(n)
+    params = {a.arg for a in fn.args.posonlyargs + fn.args.args + fn.args.kwonlyargs}
+    changed = False
+
+    def header(st):
+        if isinstance(st, (ast.For, ast.AsyncFor)):
+            return [st.iter]
+        if isinstance(st, (ast.If, ast.While)):
+            return [st.test]
+        if isinstance(st, ast.Assert):
+            return [st.test]
+        if isinstance(st, (ast.Assign, ast.AnnAssign, ast.AugAssign, ast.Return, ast.Expr)):
+            return [st.value] if getattr(st, "value", None) is not None else []
+        return []
+
+    def rec(node):
+        nonlocal changed
+        for fld in ("body", "orelse", "finalbody"):
+            blk = getattr(node, fld, None)
+            if not (isinstance(blk, list) and blk and isinstance(blk[0], ast.stmt)):
+                continue
+            k = 0
+            while k + 1 < len(blk):
+                st, nxt = blk[k], blk[k + 1]
+                if isinstance(st, ast.AnnAssign) and st.value is not None and isinstance(st.target, ast.Name):
+                    tgt, val = st.target, st.value
+                elif isinstance(st, ast.Assign) and len(st.targets) == 1 and isinstance(st.targets[0], ast.Name):
+                    tgt, val = st.targets[0], st.value
+                else:
+                    k += 1
+                    continue
+                v = tgt.id
+                if v in params or len(stores.get(v, [])) != 1 or len(loads.get(v, [])) != 1 or isinstance(val, (ast.Lambda, ast.Yield, ast.Await)):
+                    k += 1
+                    continue
+                use = loads[v][0]
+                hs = header(nxt)
+                in_header = any(x is use for h in hs for x in ast.walk(h))
+                lazy = any(isinstance(x, (ast.Lambda, ast.ListComp, ast.SetComp, ast.DictComp, ast.GeneratorExp)) and any(y is use for y in ast.walk(x))
+                           for h in hs for x in ast.walk(h))
+                if isinstance(nxt, ast.While):
+                    lazy = True          # the test of a while is evaluated again and again
+                if not in_header or lazy:
+                    k += 1
+                    continue
+
+                class R(ast.NodeTransformer):
+                    def visit_Name(self, n_):
+                        return copy.deepcopy(val) if n_ is use else n_
+                for fld2 in ("iter", "test", "value"):
+                    h = getattr(nxt, fld2, None)
+                    if isinstance(h, ast.AST) and any(x is use for x in ast.walk(h)):
+                        setattr(nxt, fld2, R().visit(h))
+                del blk[k]
+                changed = True
+                stores.pop(v, None)
+        for ch in ast.iter_child_nodes(node):
+            if isinstance(ch, (ast.FunctionDef, ast.AsyncFunctionDef, ast.ClassDef, ast.Lambda)) and ch is not fn:
+                continue
+            rec(ch)
+    rec(fn)
+    if changed:
+        ast.fix_missing_locations(fn)
+    return changed
